@@ -85,6 +85,8 @@ def code_stream(tok0, angle_pos=None):
         else:
             if '\r' in tx:
                 tx = tx.replace('\r\n', '\n').replace('\r', '\n')      # terminators inside a chunk follow `newlines` (C08)
+            if t not in LIT_TYPES and not t.startswith('STRING') and (' ' in tx or '\t' in tx):
+                tx = ' '.join(tx.split())        # blanks inside a combined non-literal chunk ('[ [ nodiscard ] ]', '#pragma' body) are layout
             out.append((tx, c.pp))
     if prev_pp:
         out.append(EOD)
